@@ -121,6 +121,16 @@ CLAIMED = {
          "allocator ledger recording the peak heap; the trace specification accepts only a returned call (no fatal signal / timeout) with peak heap <= "
          "256 n + 1 MiB. Stack use itself is observed through the process status, not measured.",
          "TLA+ closed-form adversarial inputs + TLC enumeration + trace validation of termination / heap bound"),
+ "C18": ("model_checking", "7 C18",
+         "Asn1Types.tla models an open type governed by an object set as a CHOICE-like type whose alternatives are the rows, inside a frame "
+         "SEQUENCE { id, val }; IocConsistent is the component relation constraint (the selected row is the one paired with the identifier value). "
+         "The reference encoders (BER.tla, UPER.tla, OER.tla, XER.tla, Variants.tla) give the encodings of every frame value; Values!IocCorruptions "
+         "replaces the identifier by one without a row or by another row's. TLC enumerates frames x rows x boundary values x plans (round trip, all "
+         "BER styles / XER layouts, 2-chunk splits, corrupted pairings, byte mutations, allocation failures, reset + re-decode); the sessions are "
+         "replayed on an ASan+UBSan build of the generated code with the allocation ledger (also under -fwide-types / -findirect-choice "
+         "-fcompound-names) and TLC validates each trace against Codec.tla: a decode that selects another row, accepts an identifier without a row, "
+         "crashes or leaves a block unreleased is a trace no spec action explains. The object-set universe is a fixed set of modules (VO, VP).",
+         "TLA+ open type / component relation model + TLC-enumerated sessions + trace validation on a sanitizer build"),
  "C19": ("exploration", "7 C19",
          "Threads.tla: N threads stepping thread-local Codec sessions; TLC explores every interleaving of small scripts and checks that each thread's "
          "history is the sequential one and that no step writes shared state. Binding: codec sessions over (type, value, syntax) are dealt to 2..8 "
